@@ -82,6 +82,7 @@ def default_minimise(mod, case: dict, signature: str, max_tests: int = 120) -> d
 def _run_item(args):
     mod, item, tier = args[:3]
     do_minimise = args[3] if len(args) > 3 else True
+    t_a = simkit.real_monotonic()
     _ensure_process(mod)
     if isinstance(item, dict):  # a fixed case
         case = item
@@ -89,7 +90,11 @@ def _run_item(args):
     else:
         run_seed = item
         case = mod.gen_case(run_seed, tier)
+    t_b = simkit.real_monotonic()
     res = mod.run_case(case)
+    t_c = simkit.real_monotonic()
+    if os.environ.get("VERIF_DEBUG"):
+        os.write(2, f"TIMING setup+gen={t_b - t_a:.2f} run={t_c - t_b:.2f}\n".encode())
     out = {
         "status": "ok",
         "run_seed": run_seed,
